@@ -194,12 +194,32 @@ def dump_case(grid, name, o, sp0, sp1):
     return case
 
 
+def check_dofmap(out, name, o, sp, kind, nb):
+    """local2global / local_multipliers of a dual space: identity numbering over its barycentric support."""
+    if sp is None:
+        return
+    sup = sp.support_elements.astype(int)
+    ok = sp.dof_transformation.shape[0] == nb * len(sup)
+    for pos, be in enumerate(sup):
+        if list(sp.local2global[be]) != list(range(nb * pos, nb * pos + nb)) or any(int(m) != 1 for m in sp.local_multipliers[be]):
+            ok = False
+    g2l_ok = all(len(sp.global2local[nb * pos + k]) == 1 and tuple(sp.global2local[nb * pos + k][0]) == (be, k)
+                 for pos, be in enumerate(sup) for k in range(nb))
+    if not (ok and g2l_ok):
+        out["failures"].append({"signature": "C10:%s:dofmap" % kind,
+                                "what": "%s (%s) on %s: local2global/local_multipliers/global2local are not the identity "
+                                        "numbering of its barycentric support" % (kind.upper(), _opt_name(o), name),
+                                "data": {"grid": name, "options": o}})
+
+
 def run(out, grids, rng, thorough):
     cases = []
     for name, grid, dom in grids:
         for o in dual_options(dom, thorough):
             sp0 = check_dual0(out, name, grid, dom, o, rng)
             sp1 = check_dual1(out, name, grid, dom, o, rng)
+            check_dofmap(out, name, o, sp0, "dual0", 1)
+            check_dofmap(out, name, o, sp1, "dual1", 3)
             if grid.number_of_elements <= 12:
                 cases.append(dump_case(grid, name, o, sp0, sp1))
     out["dual_cases"] = cases
